@@ -19,8 +19,8 @@ def run(s):
     s.trust("z3 5.1 (QF_NRA)", "numpy object-array arithmetic (the real numpy executes the function)")
     s.assume("A-FP", "Sqrt axioms: x >= 0 => Sqrt(x) >= 0 and Sqrt(x)^2 = x", "real displacement vectors in the deductive part (complex ones in the bounded part)")
     s.undecided_part("evec_sort: that a permuted, re-phased, <= 5 %-perturbed unitary basis has the dominant-overlap structure the loop-rule obligation assumes "
-                     "(A-DOM, Cauchy-Schwarz; stated, exercised by the bounded run), the dimension check in front of the loop (enumerated sizes only), the "
-                     "optional filter / threshold arguments")
+                     "(A-DOM, Cauchy-Schwarz; stated, exercised by the bounded run), the "
+                     "optional filter / threshold arguments (the dimension check in front of the loop is discharged for every shape: C20.evec_sort.dimension_check)")
     s.undecided_part("matdyn file loader: float() of the printed tokens is bounded only, and matdyn's layout itself is an assumption (A-MATDYN); regular expressions, column slices and the "
                      "order of the lines consumed (all 120 layouts of the quantifier, abstract contents) are discharged")
 
@@ -153,7 +153,7 @@ def run(s):
     bounded_sort(s)
     bounded_load(s)
     s.min_obligations = 9
-    s.required_names = ["C20.evec_sort.loop_rule(all dimensions)", "C20.disp2eig.formula_and_frame"]
+    s.required_names = ["C20.evec_sort.loop_rule(all dimensions)", "C20.evec_sort.dimension_check(all shapes)", "C20.disp2eig.formula_and_frame"]
 
 
 # ----------------------------------------------------------------------------------------------------------------------
@@ -331,6 +331,59 @@ def sort_loop_rule(s):
     s.oblige("C20.evec_sort.loop_rule(all dimensions)", lambda: with_pre(), [SORT])
     s.canary("C20.canary.evec_sort_with_ties_allowed(eps=1/2)", lambda: with_pre(z3.RealVal("1/2")))
 
+    def dimension_check(broken_spec=False):
+        """the statements in front of the loop, executed on lists of vectors of ARBITRARY symbolic shape (a rows of lengths TL(k), b rows of lengths BL(k), n items):
+        the input reaches the matrix construction  <=>  a = b = n and every row has n components  (the property's `rejects dimension mismatches`)"""
+        from contracts import evec_env as E
+        from vf import looprule
+        n, a, b = z3.Int("n"), z3.Int("a"), z3.Int("b")
+        TL, BL = z3.Function("TL", I, I), z3.Function("BL", I, I)
+        k = z3.Int("k")
+        square = z3.And(a == n, b == n, z3.ForAll([k], z3.Implies(z3.And(k >= 0, k < a), TL(k) == n)), z3.ForAll([k], z3.Implies(z3.And(k >= 0, k < b), BL(k) == n)))
+        if broken_spec:       # canary: a specification that forgets the rows of base_evecs must be refuted by the same machinery
+            square = z3.And(a == n, b == n, z3.ForAll([k], z3.Implies(z3.And(k >= 0, k < a), TL(k) == n)))
+        dom = [n >= 0, a >= 0, b >= 0, z3.ForAll([k], TL(k) >= 0), z3.ForAll([k], BL(k) >= 0)]
+        E.CTX[0] = E.Ctx(E.SInt(n))
+        pieces = looprule.Pieces(es.evec_sort, 0, stubs=numpy_stub_globals(es.evec_sort, E.NumpyStub(), {"len": E.sym_len, "range": E.sym_range, "set": E.sym_set}))
+        if set(pieces.args) != {"target_arr", "target_evecs", "base_evecs", "filter", "threshold"}:
+            raise core.OutsideSubset("evec_sort's parameters are %s" % pieces.args)
+
+        def thunk():
+            env = {"target_arr": E.SymList(E.SInt(n), lambda q: E.TARGET(q)), "target_evecs": E.Ragged("target", E.SInt(a), TL),
+                   "base_evecs": E.Ragged("base", E.SInt(b), BL), "filter": None, "threshold": None}
+            try:
+                out = pieces.run(pieces.prefix, env)
+            except E.ReachedMatrix:
+                return "accept"
+            except RuntimeError as e:
+                return "reject"
+            raise core.OutsideSubset("the code in front of the loop neither raises nor builds the overlap matrix (%s)" % out.kind)
+
+        paths = symnp.Paths(list(dom), max_paths=16).run(thunk)
+        tot, seen = 0.0, set()
+        for q, (pc, outcome) in enumerate(paths):
+            goal = square if outcome == "accept" else z3.Not(square)
+            r = smt.prove(goal, dom + list(pc), tier=s.tier, name="dimension_check[path %d: %s]" % (q, outcome))
+            tot += r.time_s
+            if r.status != core.PROVED:
+                r.detail = "path %d of the code in front of the loop (%s) %s although the shapes %s | %s" % (
+                    q, "; ".join(str(z3.simplify(c))[:120] for c in pc), "goes on to the matrix product" if outcome == "accept" else "raises",
+                    "are not n x n" if outcome == "accept" else "are n x n", r.detail)
+                if r.status == core.REFUTED:
+                    r.replay, r.witness_id = native_dimension(es), "sort-dimension-check"
+                return r
+            seen.add(outcome)
+        if seen != {"accept", "reject"}:
+            return core.refuted("looprule", "the code in front of the loop only ever %ss (paths: %s)" % (sorted(seen), [o for _, o in paths]), witness_id="sort-dimension-check",
+                                replay=native_dimension(es))
+        return core.proved("z3", "the statements in front of evec_sort's loop executed on lists of vectors of arbitrary symbolic shape (a rows of lengths TL(k), b rows of lengths "
+                           "BL(k), n items; comprehension by the element-wise map rule, `set` / `len` / `in` by their contracts): %d paths; the matrix construction is reached "
+                           "<=> a = b = n and every row has n components, RuntimeError otherwise -- for EVERY n, a, b and row lengths (quantified goals, z3 MBQI)" % len(paths),
+                           time_s=tot)
+
+    s.oblige("C20.evec_sort.dimension_check(all shapes)", lambda: dimension_check(), [SORT])
+    s.canary("C20.canary.dimension_check_spec_without_base_rows", lambda: dimension_check(True))
+
     def pieces_are_the_function():
         """engine self-check: prefix + iterated body + suffix, executed by CPython on concrete inputs with the real numpy, is the function"""
         from vf import looprule
@@ -389,6 +442,33 @@ def native_sort(es):
             return {"reproduced": True, "dimension": d, "complex": cplx, "raised": repr(e)[:200]}
         if got != want:
             return {"reproduced": True, "dimension": d, "complex": cplx, "permutation": perm.tolist(), "observed": got, "expected": want}
+    return {"reproduced": False}
+
+
+def native_dimension(es):
+    """a failing native input for the dimension check: n items, a x (row lengths) target vectors, b x (row lengths) base vectors; accepted <=> everything is n"""
+    for n in (1, 2, 3):
+        for a in (n - 1, n, n + 1):
+            for b in (n - 1, n, n + 1):
+                for odd in [None] + [(w, r) for w in (0, 1) for r in range((a, b)[w])]:
+                    for delta in (1, -1):
+                        tl, bl = [n] * a, [n] * b
+                        if odd is not None:
+                            (tl, bl)[odd[0]][odd[1]] = n + delta
+                        if min(tl + bl + [1]) < 1:
+                            continue
+                        square = a == n and b == n and all(x == n for x in tl + bl)
+                        te, be = [[1.0 if c == r % x else 0.0 for c in range(x)] for r, x in enumerate(tl)], [[1.0 if c == r % x else 0.0 for c in range(x)] for r, x in enumerate(bl)]
+                        try:
+                            es.evec_sort(list(range(n)), te, be)
+                            got = "accepted"
+                        except RuntimeError:
+                            got = "RuntimeError"
+                        except Exception as e:
+                            got = "another exception: %r" % (e,)
+                        if (got == "accepted") != square or (not square and got != "RuntimeError"):
+                            return {"reproduced": True, "items": n, "target_row_lengths": tl, "base_row_lengths": bl, "observed": got[:200],
+                                    "expected": "accepted" if square else "RuntimeError (dimension mismatch)"}
     return {"reproduced": False}
 
 
@@ -988,7 +1068,8 @@ MANIFEST = {
             "F10.6 columns of the stripped line; bounded: every (q-points, modes) layout of the quantifier rendered (the renderer reproduces the shipped file line for line) "
             "and read back, also right after the same path held other values.",
     "note": "For evec_sort the step from 'permuted, re-phased, 5 %-perturbed unitary basis' to the dominance precondition is a stated lemma (A-DOM), the "
-            "dimension check in front of the loop is only enumerated, argmax / unravel_index / matmul are contract stubs. The loader's line STRUCTURE (which line "
+            "dimension check in front of the loop is discharged for lists of vectors of arbitrary symbolic shape (the function's own statements executed on ragged symbolic lists; "
+            "comprehension by the element-wise map rule, set / len / in by contract stubs; quantified goals by z3 MBQI), argmax / unravel_index / matmul are contract stubs. The loader's line STRUCTURE (which line "
             "follows which) is decided for the complete layout space of the quantifier (120 layouts, abstract contents: the real reader on a stream of abstract lines, its two patterns "
             "replaced by stubs justified by the three-clause regex lemmas incl. 'no match on any other line of the layout'); float() of the printed tokens is bounded only (120 / 600 files; 59+33 / 2006+33 sort cases, 30 / 1500 conversion cases); matdyn's layout is an "
             "assumption (A-MATDYN).",
